@@ -167,6 +167,8 @@ fn sets() -> Vec<CapSet> {
         CapSet { pattern: "(?<x>a)(?<_>b)?(?<é>c)(?<1x>d)(?=)", text: "-acd-", groups: vec![Some("acd"), Some("a"), None, Some("c"), Some("d")], names: vec![("x", 1), ("_", 2), ("é", 3), ("1x", 4)] },
         CapSet { pattern: "(a)(b)?(c)(d)(e)(f)(g)(h)(i)(j)", text: "acdefghij", groups: vec![Some("acdefghij"), Some("a"), None, Some("c"), Some("d"), Some("e"), Some("f"), Some("g"), Some("h"), Some("i"), Some("j")], names: vec![] },
         CapSet { pattern: "(?<g>é+)(?<x9>😀)?(?<x>\\b)", text: "éé", groups: vec![Some("éé"), Some("éé"), None, Some("")], names: vec![("g", 1), ("x9", 2), ("x", 3)] },
+        // digit-only names: a reference is looked up as a name first, then as an index
+        CapSet { pattern: "(?<2>a)(?<0>b)(?<x>c)(?<9>d)?", text: "abc", groups: vec![Some("abc"), Some("a"), Some("b"), Some("c"), None], names: vec![("2", 1), ("0", 2), ("x", 3), ("9", 4)] },
         CapSet { pattern: "(?<x٣>a)(?<π>b)(?<x>c)(?<１>d)?", text: "abc", groups: vec![Some("abc"), Some("a"), Some("b"), Some("c"), None], names: vec![("x٣", 1), ("π", 2), ("x", 3), ("１", 4)] },
     ]
 }
@@ -178,6 +180,21 @@ fn template(mut idx: u64, len: usize) -> String {
         idx /= 14;
     }
     s
+}
+
+struct ShortWriter {
+    buf: Vec<u8>,
+    chunk: usize,
+}
+impl std::io::Write for ShortWriter {
+    fn write(&mut self, b: &[u8]) -> std::io::Result<usize> {
+        let n = b.len().min(self.chunk);
+        self.buf.extend_from_slice(&b[..n]);
+        Ok(n)
+    }
+    fn flush(&mut self) -> std::io::Result<()> {
+        Ok(())
+    }
 }
 
 struct Fix<'a> {
@@ -259,6 +276,13 @@ pub fn run(ctx: &Ctx) -> Outcome {
                         let mut v: Vec<u8> = vec![];
                         ex.write_expansion(&mut v, tpl, &f.caps).expect("write to Vec");
                         outs.push(("write_expansion", String::from_utf8_lossy(&v).into_owned()));
+                        // a writer that accepts at most 1 (then 3) bytes per call: write_expansion
+                        // must still deliver everything (Write::write may write short)
+                        for chunk in [1usize, 3] {
+                            let mut w = ShortWriter { buf: vec![], chunk };
+                            ex.write_expansion(&mut w, tpl, &f.caps).expect("write to short writer");
+                            outs.push((if chunk == 1 { "write_expansion (1 byte per write)" } else { "write_expansion (3 bytes per write)" }, String::from_utf8_lossy(&w.buf).into_owned()));
+                        }
                         let mut v: Vec<u8> = vec![];
                         ex.write_expansion_vec(&mut v, tpl, &f.caps).expect("write to Vec");
                         outs.push(("write_expansion_vec", String::from_utf8_lossy(&v).into_owned()));
@@ -327,7 +351,7 @@ pub fn run(ctx: &Ctx) -> Outcome {
     let mut out = Outcome::new(acc);
     out.distinct_nontrivial = out.acc.distinct;
     out.exhaustive = true;
-    out.rule = format!("all templates over the 14 symbols $ {{ }} \\ g < > 0 1 9 x _ é space up to length {} (exhaustive, {} templates) plus {} seeded random ones of length 2-16, half of them over a wider alphabet with non-ASCII digits / letters / marks (٣ ² π １ · ⅷ combining acute, emoji); x 5 capture sets (named incl. a group literally named 1x and an unmatched group, on both routes; 10 numbered groups; multi-byte and empty group texts) x both expanders x expansion / append_expansion / write_expansion / write_expansion_vec / Captures::expand against the model and each other; expansion(escape(s)) = s; check = Ok => every reference the model extracts names an existing group. Non-trivial: distinct templates containing >= 1 substitution under either syntax.", maxlen, (0..=maxlen).map(|l| 14u64.pow(l as u32)).sum::<u64>(), n_random);
+    out.rule = format!("all templates over the 14 symbols $ {{ }} \\ g < > 0 1 9 x _ é space up to length {} (exhaustive, {} templates) plus {} seeded random ones of length 2-16, half of them over a wider alphabet with non-ASCII digits / letters / marks (٣ ² π １ · ⅷ combining acute, emoji); x 6 capture sets (named incl. digit-only names, a group literally named 1x and an unmatched group, on both routes; 10 numbered groups; multi-byte and empty group texts) x both expanders x expansion / append_expansion / write_expansion (into a Vec and into writers that take 1 or 3 bytes per call) / write_expansion_vec / Captures::expand against the model and each other; expansion(escape(s)) = s; check = Ok => every reference the model extracts names an existing group. Non-trivial: distinct templates containing >= 1 substitution under either syntax.", maxlen, (0..=maxlen).map(|l| 14u64.pow(l as u32)).sum::<u64>(), n_random);
     out.assumptions = vec!["the model (c12.rs parse_default / parse_python) is written from the documentation of Captures::expand and Expander::python".into()];
     let rs = route_seen.load(Ordering::Relaxed);
     let subst = out.acc.get("expansions-with-nonempty-substitution");
